@@ -269,6 +269,24 @@ func c17Work(c *mc.Ctx) {
 		if err != nil || hx(ob) != defaultWant[len(defaultWant)-1] {
 			c.Violation("package-functions|options-leaked:"+where, fmt.Sprintf("%s vs %s", hx(ob), defaultWant[len(defaultWant)-1]))
 		}
+		// the other package-level entry points: Unmarshal, CodecForType, CodecForTypeWithTag
+		var back gen.Marker
+		if err := plenc.Unmarshal(b, &back); err != nil || back != five {
+			c.Violation("package-functions|unmarshal-differs:"+where, fmt.Sprintf("plenc.Unmarshal(%s) = %d, %v", hx(b), back, err))
+		}
+		dc, derr := NewPlenc(ref.Cfg{}).CodecForType(reflect.TypeOf(five))
+		pc, perr := plenc.CodecForType(reflect.TypeOf(five))
+		if (derr == nil) != (perr == nil) || (perr == nil && reflect.TypeOf(dc) != reflect.TypeOf(pc)) {
+			c.Violation("package-functions|codecfortype-differs:"+where, fmt.Sprintf("plenc.CodecForType gives %T %v, a default instance %T %v", pc, perr, dc, derr))
+		}
+		dt, dterr := NewPlenc(ref.Cfg{}).CodecForTypeWithTag(reflect.TypeOf(0), "flat")
+		pt, pterr := plenc.CodecForTypeWithTag(reflect.TypeOf(0), "flat")
+		if (dterr == nil) != (pterr == nil) || (pterr == nil && reflect.TypeOf(dt) != reflect.TypeOf(pt)) {
+			c.Violation("package-functions|codecfortypewithtag-differs:"+where, fmt.Sprintf("plenc.CodecForTypeWithTag(int, flat) gives %T %v, a default instance %T %v", pt, pterr, dt, dterr))
+		}
+		if _, err := plenc.CodecForTypeWithTag(reflect.TypeOf(five), "custom"); err == nil {
+			c.Violation("package-functions|tagged-custom-codec-found:"+where, "the package-level default has a codec for a tag only registered on other instances")
+		}
 		c.Dim("package-functions")
 		c.Dim("default-instance")
 	}
